@@ -109,7 +109,7 @@ def build_flow(cfg, seed):
     from aspire.transforms import FlowTransform
 
     d = 2
-    params = ["a", "b"]
+    params = ["q", "m"]  # not in alphabetical order (HDF5 groups iterate alphabetically)
     lo, hi = np.array([-2.0, 1.0]), np.array([3.0, 9.0])
     bounds = {p: (float(l), float(h)) for p, l, h in zip(params, lo, hi)}
     rng = rng_from(seed)
